@@ -223,6 +223,26 @@ def oracle(run: runner.Run, oc: Outcome) -> None:
                            f"daemon {hid} of {uid} (mode {mode}): stop flag at t={flag_at:.4f}, backoff={backoff}, so the "
                            f"cancellation was due at t={t_due:.4f}; it came at {t_seen_cancel} (instance alive until "
                            f"{alive_to:.3f}; reason at flag: {extra.get('reason_at_flag')})", uid=uid, hid=hid)
+            # 2c. abandonment not before flag + backoff + timeout: the operator's exit does not leave a daemon behind that
+            #     is still within its stages (seen on synchronous daemons above all: their threads cannot be cancelled)
+            if timeout is not None and flag_at is not None and op.exit is not None and op.exit[1] == 'returned' \
+                    and t_stop is not None and not _cancelled_before(run, opid, float('inf')) and not op.tearing_down:
+                t_x = op.exit[0]
+                if (c.t1 is None or c.t1 > t_x + EPS) and c.t0 <= t_stop and \
+                        t_x < flag_at + float(backoff or 0.0) + float(timeout) - EPS:
+                    oc.add('C09/stages', 'abandoned-before-timeout',
+                           f"daemon {hid} of {uid}: stop flag at t={flag_at:.4f}, backoff={backoff}, timeout={timeout}; "
+                           f"kopf.operator() returned at t={t_x:.4f} and left it running (until {c.t1}), i.e. it was abandoned "
+                           f"before t={flag_at + float(backoff or 0.0) + float(timeout):.4f}", uid=uid, hid=hid)
+            # 2d. ... nor is it declared abandoned before that (the reason it sees when it does exit says so)
+            if timeout is not None and flag_at is not None and c.t1 is not None and not op.tearing_down \
+                    and 'DAEMON_ABANDONED' in str(extra.get('reason_at_exit')) \
+                    and c.t1 < flag_at + float(backoff or 0.0) + float(timeout) - EPS \
+                    and not _cancelled_before(run, opid, c.t1):
+                oc.add('C09/stages', 'abandoned-before-timeout',
+                       f"daemon {hid} of {uid}: stop flag at t={flag_at:.4f}, backoff={backoff}, timeout={timeout}; when it "
+                       f"exited at t={c.t1:.4f} it had already been declared abandoned ({extra.get('reason_at_exit')}), i.e. "
+                       f"before t={flag_at + float(backoff or 0.0) + float(timeout):.4f}", uid=uid, hid=hid)
             # 4. an instance that exited on its own is not started again in this process
             if c.outcome == 'returned-own' and not c.stop_seen and k + 1 < len(calls):
                 oc.add('C09/restarted', 'after-own-exit',
